@@ -115,7 +115,7 @@ theorem sectionsAtMostOne_of_bounded (g : GitCfg) (π : List Name) (h : Sections
       obtain ⟨p, hp, rfl⟩ := List.mem_map.mp hf
       exact List.mem_cons_of_mem _ (List.mem_map.mpr ⟨p, hp, rfl⟩)
     · have : g.getBool (some f) c = none := by
-        unfold GitCfg.getBool
+        rw [getBool_section]
         by_cases he : g.enabled
         · simp [he, lookup_none_of_not_mem f _ hf]
         · simp [he]
